@@ -111,72 +111,12 @@ def run(rep, tier):
                 continue
             marked_table(rep, k, which)
 
-    from .c16 import rule_nearest, rule_seek
-    rep.rule("F1-nearest / F4-seek", "shared with C16: every time->sample conversion is round(time * frameRate); readFramesAtTime always seeks before it reads")
-    rule_nearest(rep)
-    rule_seek(rep)
-    audio = idx.module("audio")
-    # extractSubwav
-    ex = idx.get("audio:extractSubwav")
-    body = [norm(s) for s in ex.node.body if not isinstance(s, ast.Expr) or not isinstance(s.value, ast.Constant)]
-    calls = [norm(n) for n in ast.walk(ex.node) if isinstance(n, ast.Call)]
-    ok = any(c.endswith(".getFrames(startTime, endTime)") for c in calls) and any(".outputFrames(" in c and c.endswith(", outputFN)") for c in calls)
-    rep.check(ok, "K-wiring", ex.short, "; ".join(body)[:120], ok="getFrames(startTime, endTime) then outputFrames(frames, outputFN)", bad="extractSubwav no longer writes exactly getFrames(startTime, endTime)")
-    # outputFrames copies parameters
-    of = idx.get("AbstractWav.outputFrames")
-    cands = [of] + [m for m in of.cls.mro()[0].methods.values() if m.name.startswith("_") and any(isinstance(c, ast.Call) and norm(c.func) == "self." + m.name for c in ast.walk(of.node))]
-    lists = [n for f_ in cands for n in ast.walk(f_.node) if isinstance(n, ast.List) and len(n.elts) == 6]
-    want = ["self.nchannels", "self.sampleWidth", "self.frameRate", None, "self.comptype", "self.compname"]
-    ok = len(lists) == 1 and all(w is None or norm(e) == w for e, w in zip(lists[0].elts, want)) and any(isinstance(n, ast.Call) and norm(n.func).endswith(".writeframes") and norm(n.args[0]) == of.params[0] for n in ast.walk(of.node))
-    rep.check(ok, "K-wiring", of.short, norm(lists[0]) if lists else "setparams", ok="channels, sample width, frame rate and compression copied from the source; the given frames written", bad="outputFrames does not copy the source's parameters / write the given frames")
-    # splitAudioOnTier
-    sp = idx.get("praatio_scripts:splitAudioOnTier")
-    rep.functions.add(sp.qual)
-    loops = [n for n in ast.walk(sp.node) if isinstance(n, ast.For) and "enumerate(entries)" in norm(n.iter)]
-    if len(loops) != 1:
-        rep.vanished("K-wiring", sp.short, "for i, entry in enumerate(entries)")
-    else:
-        lp = loops[0]
-        unpack = [s for s in lp.body if isinstance(s, ast.Assign) and norm(s.value) == "entry" and isinstance(s.targets[0], ast.Tuple)]
-        names = [norm(e) for e in unpack[0].targets[0].elts] if unpack else []
-        direct = [s for s in lp.body]
-        gf = [s for s in direct if isinstance(s, ast.Assign) and isinstance(s.value, ast.Call) and norm(s.value.func).endswith(".getFrames")]
-        ofs = [s for s in direct if isinstance(s, ast.Expr) and isinstance(s.value, ast.Call) and norm(s.value.func).endswith(".outputFrames")]
-        skips = [n for s in lp.body for n in ast.walk(s) if isinstance(n, (ast.Continue, ast.Break))]
-        ok = len(names) == 3 and len(gf) == 1 and len(ofs) == 1 and [norm(a) for a in gf[0].value.args] == names[:2] and norm(ofs[0].value.args[0]) == norm(gf[0].targets[0]) and not skips
-        rep.check(ok, "K-wiring", sp.short, "getFrames(%s) / outputFrames" % ", ".join(names[:2]), ok="one file per entry, holding the source frames between the entry's own bounds, no entry skipped",
-                  bad="the per-entry loop does not write exactly getFrames(start, end) for every entry", loc=sp.where(lp))
-        crops = [n for n in ast.walk(lp) if isinstance(n, ast.Call) and norm(n.func).endswith(".crop")]
-        ok = len(crops) == 1 and [norm(a) for a in crops[0].args] == names[:2] + ["mode", "True"]
-        rep.check(ok, "K-wiring", sp.short, norm(crops[0]) if crops else "tg.crop(...)", ok="cropped TextGrid = crop(start, end, mode, rebaseToZero=True): spans exactly [0, end-start] (C06)", bad="the cropped TextGrid is not crop(start, end, mode, True) with the entry's own bounds")
-        gv = [n for n in ast.walk(sp.node) if isinstance(n, ast.FunctionDef) and n.name == "getValue"]
-        ok = False
-        if gv:
-            ifs = [s for s in gv[0].body if isinstance(s, ast.If)]
-            if ifs:
-                t = idx.const_value(sp.module, ifs[0].body[0].value) if isinstance(ifs[0].body[0], ast.Return) else None
-                f = idx.const_value(sp.module, ifs[0].orelse[0].value) if ifs[0].orelse and isinstance(ifs[0].orelse[0], ast.Return) else None
-                ok = (t, f) == ("strict", "truncated") and any(isinstance(n, ast.Call) and norm(n) == "getValue(noPartialIntervals)" for n in ast.walk(sp.node))
-        rep.check(ok, "K-wiring", sp.short, "mode = getValue(noPartialIntervals)", ok="strict iff noPartialIntervals, else truncated", bad="crop mode is no longer strict iff noPartialIntervals")
-        filt = [n for n in ast.walk(sp.node) if isinstance(n, ast.ListComp) and "silenceLabel" in norm(n)]
-        ok = len(filt) == 1 and norm(filt[0].generators[0].ifs[0]) == "entry.label != silenceLabel" and filt[0].lineno < lp.lineno
-        rep.check(ok, "K-wiring", sp.short, norm(filt[0]) if filt else "silence filter", ok="the silence filter is applied before numbering", bad="silence filtering changed")
-    # generators
-    gen = audio.classes.get("AudioGenerator")
-    sil, sine = gen.methods.get("generateSilence"), gen.methods.get("generateSineWave")
-    rounds = []
-    for m in (sil, sine):
-        rs = [n for n in ast.walk(m.node) if isinstance(n, ast.Call) and norm(n.func) == "round" and "frameRate" in norm(n)]
-        rounds.append(sorted(f for r in rs for f in norm(r.args[0]).replace(" ", "").split("*")))
-    ok = rounds[0] == rounds[1] == ["duration", "self.frameRate"]
-    rep.check(ok, "K-wiring", "AudioGenerator", "sample counts: %s" % rounds, ok="both generators produce round(frameRate * duration) samples", bad="the two generators disagree on the number of samples: %s" % rounds)
-    r = [n for n in ast.walk(sine.node) if isinstance(n, ast.Call) and norm(n.func) == "range"]
-    ok = len(r) == 1 and isinstance(r[0].args[0], ast.Name) and any(isinstance(n, ast.Assign) and norm(n.targets[0]) == r[0].args[0].id and norm(n.value).startswith("round(") for n in ast.walk(sine.node))
-    rep.check(ok, "K-wiring", sine.short, "range(nSamples)", ok="one value per sample index", bad="sine generator does not produce one value per sample")
-    z = [n for n in ast.walk(sil.node) if isinstance(n, ast.Return)]
-    ok = len(z) == 1 and isinstance(z[0].value, ast.BinOp) and isinstance(z[0].value.op, ast.Mult) and "round(" in norm(z[0].value)
-    rep.check(ok, "K-wiring", sil.short, norm(z[0].value) if z else "?", ok="one packed zero sample repeated round(rate*duration) times", bad="silence generator shape changed")
-    rep.floor("K-wiring", 9)
+    from . import audiobuf
+    rep.rule("F-file", "shared with C16: readFramesAtTime positions the file unconditionally at round(frameRate * start) before the single read")
+    audiobuf.file_reads(rep)
+    audiobuf.wiring(rep)
+    audiobuf.generators(rep)
+    rep.floor("K-wiring", 4)
     # splitAudioOnTier crops the whole textgrid to every entry: a secondary tier with nothing under the window
     # must come out empty, spanning [0, end - start] (shared with C06/C12)
     from .c12 import lifting
